@@ -16,3 +16,11 @@ claim('C19',
       'Python ints as mathematical integers; z3 LIA/LRA; builtin max/min replaced by the equivalent ite term.',
       'symbolic execution of the real Python + SMT (z3 LIRA, QF_FP lemma)',
       'DESIGN.md section 5 C19')
+claim('C04',
+      'Bounded symbolic check of the real bounding_box code of every pixel class: enclosure (every point the '
+      'independent membership oracle puts strictly inside lies within the pixel-edge extent) and minimality (a witness '
+      'boundary point reaches each of the four border rows/columns) are proved by the solver for all real parameters '
+      'and angles; annulus box == outer box, compound box == hull of operand boxes.',
+      'Real-number model of floats; floor/ceil by their axioms with integer-relaxation; polygons bounded in vertex count.',
+      'symbolic execution of the real Python + SMT (z3 NRA/LIRA)',
+      'DESIGN.md section 5 C04')
